@@ -124,8 +124,19 @@ fn exotic_value_raw(rng: &mut Rng, depth: usize) -> Val {
     }
 }
 
-/// source text of an operand aimed at value-dependent failures
+/// source text of an operand aimed at value-dependent failures; a quarter of them sit inside another container
 fn operand(rng: &mut Rng) -> String {
+    let x = operand_raw(rng);
+    match rng.below(16) {
+        0 => format!("({} <> 5)", x),
+        1 => format!("(5 <> {})", x),
+        2 => format!("({},)", x),
+        3 => format!("(:ka = {})", x),
+        _ => x,
+    }
+}
+
+fn operand_raw(rng: &mut Rng) -> String {
     let num = |rng: &mut Rng| rng.pick(&["0", "1", "2", "4", "9", "--1", "31", "32", "33", "2147483647", "(--2147483647 - 1)", "1.5", "0.0", "--0.5"]).to_string();
     match rng.below(20) {
         0..=4 => {
@@ -344,7 +355,9 @@ fn execute_in<D: SimData>(sc: &Sc07) -> Outcome {
                     break 'attempts;
                 }
                 StepResult::Panic(p) => {
-                    out.violate("C07.panic.step", format!("executing {:?} panicked: {} [fault: {}, attempt {}]", ins, p, sc.fault, attempt));
+                    // the panic location is part of the invariant id, so that different panics are reported separately
+                    let loc = p.rsplit(" @ ").next().unwrap_or("").replace("/repo/", "");
+                    out.violate(&format!("C07.panic.step@{}", loc), format!("executing {:?} panicked: {} [fault: {}, attempt {}]", ins, p, sc.fault, attempt));
                     break 'attempts;
                 }
                 StepResult::Err { ref msg, .. } => {
@@ -583,7 +596,57 @@ impl Campaign for C07 {
 
     fn seeded(&self) -> Vec<Sc07> {
         let mk = |basic: bool, src: &str| Sc07 { basic, knobs: Knobs::default(), src: src.to_string(), input: Val::Unit, script: HostScript::default(), compact_every: 0, after_err: AfterErr::Nothing, max_steps: 500, fault: "none (regression seed)".into() };
-        vec![mk(false, "1 << 32"), mk(true, "1 >> 33"), mk(true, "1 << --1")]
+        let mut v = vec![mk(false, "1 << 32"), mk(true, "1 >> 33"), mk(true, "1 << --1")];
+        // value-shape matrix (complete on every invocation): every sliceable kind x ranges in / out of range /
+        // reversed / empty, bare and nested one level inside another container, fed to every consumer
+        let targets = ["\"abcdef\"", "'abcdef'", "(1 2 3 4)", ":ka.kb.kc.kd", "(10 <> 20 <> 30)", "(:ka = 1, :kb = 2)"];
+        let ranges = ["(1..2)", "(0..9)", "(2..0)", "(3..3)", "(--1..1)", "(1 >..< 1)"];
+        let mut values: Vec<String> = vec![];
+        for t in targets {
+            for r in ranges {
+                let s = format!("({} <~ {})", t, r);
+                values.push(s.clone());
+                values.push(format!("({} <> 5)", s));
+                values.push(format!("(5 <> {})", s));
+                values.push(format!("({},)", s));
+                values.push(format!("(:ka = {})", s));
+                values.push(format!("({} <~ (0..1))", s));
+            }
+        }
+        for extra in [
+            "\"\u{65e5}\u{672c}\u{8a9e}\"", "(\"\u{65e5}\u{672c}\u{8a9e}\" <~ (1..2))", "(\"h\u{e9}llo\" <~ (1..3))", "(3..1)", "(1..3)", "(1.5 .. 3)", "(1 >..< 1)", ":ka.kb", "({ $ } ~ 1)", "(5 ~ 6)", "(,)", "((1 2) (3 4))", "(:ka = (,))",
+            "(1 <> (2 <> 3))", "2147483647", "(--2147483647 - 1)", "1.5", "()", "$?", "#1", "{ $ }", "(1 = 2)", "(:ka = :kb = 3)", "\"\"", "(\"ab\" <> \"cd\")", "((,) <> (,))",
+        ] {
+            values.push(extra.to_string());
+        }
+        let seconds = ["0", "1", "--1", "1.5", ":ka", "\"a\"", "(,)", "(0..1)", "31", "32", "V"];
+        let binary = ["<~", "+", "*", "**", "//", "%", "<<", ">>", "==", "<", "<>", "~#", "..", "&"];
+        for val in &values {
+            for op in binary {
+                for w in seconds {
+                    let src = format!("{} {} {}", val, op, w.replace('V', val));
+                    v.push(mk(false, &src));
+                    v.push(mk(true, &src));
+                    if ["<~", "~#", "..", "**", "<<"].contains(&op) {
+                        let src = format!("{} {} {}", w.replace('V', val), op, val);
+                        v.push(mk(false, &src));
+                        v.push(mk(true, &src));
+                    }
+                }
+            }
+        }
+        let consumers = [
+            "V.|", "_.V", "V._", "#V", "V ~# \"\"", "V ~# 'x'", "V ~# (,)", "V ~# :s", "V ~# 0", "V~~", "--V", "!!V", "V == V", "V != (1 <> 2)", "V == \"bc\"", "V < V", "V <> V", "V <~ 0", "V <~ 1",
+            "V <~ :ka", "{ $.0 } <~ V", "{ $.ka } <~ V", "{ ka } <~ V", "V <~ (0..1)", "V + 1",
+        ];
+        for val in &values {
+            for c in consumers {
+                let src = c.replace('V', val);
+                v.push(mk(false, &src));
+                v.push(mk(true, &src));
+            }
+        }
+        v
     }
 
     fn haystack(&self, sc: &Sc07) -> String {
